@@ -522,6 +522,12 @@ def _liveness(d, run):
                   "returns unless known finding D6 occurred; after close() both workers stop; 2 clients x 2 calls of insert/wait/clear/close)")
     if r["violated"]:
         run.violation("specification Cache.tla violates liveness %s in MC_Cache_live.cfg" % r["violated"], replay_lines=[r["out"][-8000:]])
+    if _thorough(run):
+        # the same property without the D6 exemption must FAIL (D6 is reachable; the liveness check bites)
+        w = d.tlc_mc("MC_Cache.tla", "MC_Cache_live_strict.cfg", run.workdir, workers=4, timeout=1800)
+        if not any(v.startswith("<temporal") for v in w["violated"]):
+            raise d.ToolError("MC_Cache_live_strict: the expected liveness violation (known finding D6: orphaned wait marker) was not found")
+        run.notes["liveness_witness"] = "MC_Cache_live_strict.cfg: %s, as expected (D6)" % w["violated"]
 
 
 def _drain_liveness(d, run):
